@@ -13,6 +13,9 @@ answers `<result> ; <state>` where the state is
   timer need <tMs>                          SendTimer.need_ka            → true | false
   timer send <tMs> <netok 0|1>              KA.send_if_needed            → true | false | notify c s
   timer poll <tMs> <kind>                   one `_main` iteration        → idle | ka | notify c s | dead
+  timer out <tMs> <update|eor|refresh|operational>   ExaBGP writes a message (Protocol.send / new_eor / …) → idle
+  timer estab-recv <localHold> <peerHold> <tMs>      `_establish`: ReceiveTimer from the negotiated hold time
+  timer estab-send <localHold> <peerHold> <tMs>      `_main`: KA / SendTimer from the negotiated hold time
   timer state
   timer keepalive <H>                       HoldTime(H).keepalive()
   timer kind <name>                         → <TYPE byte> <SCHEDULING>
@@ -89,6 +92,23 @@ def timerLine (s : Sess) (ws : List String) : Sess × String :=
       let (s1, f) := s.poll { t := t, kind := k }
       withState s1 (showFired f)
     | _, _ => bad
+  | ["out", t, k] =>
+    let kind? : Option OutKind := match k with
+      | "update" => some .update | "eor" => some .eor | "refresh" => some .refresh
+      | "operational" => some .operational | _ => none
+    match t.toNat?, kind? with
+    | some t, some k =>
+      let (s1, f) := s.step (.out t k)
+      withState s1 (showFired f)
+    | _, _ => bad
+  | ["estab-recv", l, p, t] =>
+    match l.toNat?, p.toNat?, t.toNat? with
+    | some l, some p, some t => withState { s with recv := Recv.establish l p t, closed := none } "ok"
+    | _, _, _ => bad
+  | ["estab-send", l, p, t] =>
+    match l.toNat?, p.toNat?, t.toNat? with
+    | some l, some p, some t => withState { s with send := Send.establish l p t } "ok"
+    | _, _, _ => bad
   | ["state"] => (s, showSess s)
   | ["keepalive", h] =>
     match h.toNat? with
